@@ -238,7 +238,7 @@ theorem insertAtIndex_ok {d d' : Dom} {P c : Id} {i : Nat} (h : d.insertAtIndex 
               simp only [if_true]
               by_cases hxc : x = c
               · subst hxc; simp at hpn'; subst hpn'; simp [dataOf_of_node hcn]
-              · simp [hxc] at hpn'; simp [hxc, dataOf_of_node hpn']
+              · simp [hxc] at hpn'; simp [dataOf_of_node hpn']
             · simp [hxP]; intro hxc; subst hxc; simp [dataOf_of_node hcn]
           · subst h; simp
           · subst h; simp
@@ -541,7 +541,7 @@ theorem reparentChildren_ok {d d' : Dom} {n np : Id} (h : d.reparentChildren n n
           · intro x; subst h
             rw [parentOf_setNode hset, parentOf_setNode hnpn1, l1, childrenOf_of_node hnn]
             by_cases hxn : x = n
-            · subst hxn; simp [hne]
+            · subst hxn; simp
               rw [← parentOf_of_node hnn1, l1]
             · simp [hxn]
               by_cases hxp : x = np
@@ -559,7 +559,7 @@ theorem reparentChildren_ok {d d' : Dom} {n np : Id} (h : d.reparentChildren n n
           · intro x; subst h
             rw [dataOf_setNode hset, dataOf_setNode hnpn1, l3]
             by_cases hxn : x = n
-            · subst hxn; simp [hne]; rw [← dataOf_of_node hnn1, l3]
+            · subst hxn; simp; rw [← dataOf_of_node hnn1, l3]
             · simp [hxn]
               intro hxp; subst hxp; rw [← dataOf_of_node hnpn1, l3]
           · subst h; simp [l4]
@@ -751,110 +751,13 @@ theorem appendBasedOnParentNode_eq {d : Dom} {e p : Id} {ch : NodeOrText} {r : E
   simp only [bind, Except.bind, get_ok_of hen] at h
   rw [parentOf_of_node hen, ← h]
 
-theorem WF.applyV_asCode {d d' : Dom} {op : SinkOp} {out : Output} (hw : WF d)
-    (hc : d.contractOk op = true) (h : d.applyV .asCode op = .ok (d', out)) : WF d' := by
-  cases op with
-  | parseError msg =>
-    simp [Dom.applyV] at h; obtain ⟨h, _⟩ := h; subst h
-    exact hw.congr (fun _ => rfl) (fun _ => rfl)
-  | getDocument => simp [Dom.applyV] at h; obtain ⟨h, _⟩ := h; subst h; exact hw
-  | elemName t =>
-    simp only [Dom.applyV, bind, Except.bind] at h
-    cases he : d.elemName t with
-    | error e => simp [he] at h
-    | ok v => simp [he] at h; obtain ⟨h, _⟩ := h; subst h; exact hw
-  | createElement name attrs flags =>
-    simp [Dom.applyV] at h; obtain ⟨h, _⟩ := h; subst h
-    have := createElement_shape d name attrs flags
-    exact hw.congr this.parent this.children
-  | createComment text =>
-    simp [Dom.applyV, Dom.createComment] at h; obtain ⟨h, _⟩ := h; subst h; exact hw.alloc _
-  | createPi t dd =>
-    simp [Dom.applyV, Dom.createPi] at h; obtain ⟨h, _⟩ := h; subst h; exact hw.alloc _
-  | append p c =>
-    simp only [Dom.applyV, bind, Except.bind] at h
-    cases ha : d.append p c with
-    | error e => simp [ha] at h
-    | ok d1 =>
-      simp [ha] at h; obtain ⟨h, _⟩ := h; subst h
-      exact hw.append (by simpa [Dom.contractOk] using hc) ha
-  | appendBasedOnParentNode e p c =>
-    simp only [Dom.applyV, bind, Except.bind] at h
-    cases ha : d.appendBasedOnParentNode e p c with
-    | error err => simp [ha] at h
-    | ok d1 =>
-      simp [ha] at h; obtain ⟨h, _⟩ := h; subst h
-      simp only [Dom.contractOk, Bool.and_eq_true] at hc
-      have := appendBasedOnParentNode_eq ha (lt_of_isElement hc.1.1)
-      by_cases hp : (d.parentOf e).isSome = true
-      · simp only [hp, if_true] at this hc
-        exact hw.appendBeforeSibling hc.2 this.symm
-      · simp only [hp] at this hc
-        exact hw.append hc.2 this.symm
-  | appendDoctypeToDocument n p s =>
-    simp only [Dom.applyV, bind, Except.bind, Dom.appendDoctypeToDocument] at h
-    cases ha : (d.alloc (NodeData.doctype n p s)).1.appendRaw Dom.document (d.alloc (NodeData.doctype n p s)).2 with
-    | error err => simp [ha] at h
-    | ok d1 =>
-      simp [ha] at h; obtain ⟨h, _⟩ := h; subst h
-      rw [alloc_id] at ha
-      simp only [Dom.contractOk, Bool.and_eq_true] at hc
-      have hdoc : Dom.document < d.size := lt_of_isContainer hc.1
-      exact hw.allocAppend hdoc ha
-  | markScriptAlreadyStarted n => simp [Dom.applyV] at h; obtain ⟨h, _⟩ := h; subst h; exact hw
-  | pop n => simp [Dom.applyV] at h; obtain ⟨h, _⟩ := h; subst h; exact hw
-  | getTemplateContents t =>
-    simp only [Dom.applyV, bind, Except.bind] at h
-    cases he : d.getTemplateContents t with
-    | error e => simp [he] at h
-    | ok v => simp [he] at h; obtain ⟨h, _⟩ := h; subst h; exact hw
-  | sameNode x y => simp [Dom.applyV] at h; obtain ⟨h, _⟩ := h; subst h; exact hw
-  | setQuirksMode m =>
-    simp [Dom.applyV] at h; obtain ⟨h, _⟩ := h; subst h
-    exact hw.congr (fun _ => rfl) (fun _ => rfl)
-  | appendBeforeSibling s c =>
-    simp only [Dom.applyV, bind, Except.bind] at h
-    cases ha : d.appendBeforeSibling s c with
-    | error e => simp [ha] at h
-    | ok d1 =>
-      simp [ha] at h; obtain ⟨h, _⟩ := h; subst h
-      exact hw.appendBeforeSibling (by simpa [Dom.contractOk] using hc) ha
-  | addAttrsIfMissing t a =>
-    simp only [Dom.applyV, bind, Except.bind] at h
-    cases ha : d.addAttrsIfMissing t a with
-    | error e => simp [ha] at h
-    | ok d1 =>
-      simp [ha] at h; obtain ⟨h, _⟩ := h; subst h
-      obtain ⟨_, _, _, _, _, hs, _, _⟩ := addAttrsIfMissing_ok ha
-      exact hw.congr hs.parent hs.children
-  | associateWithForm _ _ _ _ => simp [Dom.applyV] at h; obtain ⟨h, _⟩ := h; subst h; exact hw
-  | removeFromParent t =>
-    simp only [Dom.applyV, bind, Except.bind] at h
-    cases ha : d.removeFromParent t with
-    | error e => simp [ha] at h
-    | ok d1 => simp [ha] at h; obtain ⟨h, _⟩ := h; subst h; exact hw.removeFromParent ha
-  | reparentChildren n np =>
-    simp only [Dom.applyV, bind, Except.bind] at h
-    cases ha : d.reparentChildren n np with
-    | error e => simp [ha] at h
-    | ok d1 =>
-      simp [ha] at h; obtain ⟨h, _⟩ := h; subst h
-      simp only [Dom.contractOk, Bool.and_eq_true, Bool.not_eq_true'] at hc
-      exact hw.reparentChildren (not_anc_of_isAncOrSelf_false hw (lt_of_isContainer hc.1.2) hc.2) ha
-  | isMathmlAnnotationXmlIntegrationPoint t =>
-    simp only [Dom.applyV, bind, Except.bind] at h
-    cases he : d.isMathmlAnnotationXmlIntegrationPoint t with
-    | error e => simp [he] at h
-    | ok v => simp [he] at h; obtain ⟨h, _⟩ := h; subst h; exact hw
-  | setCurrentLine _ => simp [Dom.applyV] at h; obtain ⟨h, _⟩ := h; subst h; exact hw
-  | allowDeclarativeShadowRoots _ => simp [Dom.applyV] at h; obtain ⟨h, _⟩ := h; subst h; exact hw
-  | attachDeclarativeShadow _ _ _ => simp [Dom.applyV] at h; obtain ⟨h, _⟩ := h; subst h; exact hw
-  | maybeCloneAnOptionIntoSelectedcontent o =>
-    simp only [Dom.applyV, bind, Except.bind] at h
-    cases ha : d.maybeCloneOption .asCode o with
-    | error e => simp [ha] at h
-    | ok d1 =>
-      simp [ha] at h; obtain ⟨h, _⟩ := h; subst h
-      rw [maybeCloneOption_asCode_eq ha]; exact hw
+theorem appendBeforeSiblingV_asCode (d : Dom) (s : Id) (c : NodeOrText) :
+    d.appendBeforeSiblingV .asCode s c = d.appendBeforeSibling s c := by
+  cases c <;> rfl
+
+theorem appendBasedOnParentNodeV_asCode (d : Dom) (e p : Id) (c : NodeOrText) :
+    d.appendBasedOnParentNodeV .asCode e p c = d.appendBasedOnParentNode e p c := by
+  unfold Dom.appendBasedOnParentNodeV Dom.appendBasedOnParentNode
+  simp only [appendBeforeSiblingV_asCode]
 
 end H5V.Lemmas.Dom
